@@ -93,20 +93,42 @@ func refMethods(cfg []string, m string) (match bool, defined bool) {
 	return set[m], true
 }
 
-func globDot(pattern, host string) bool {
-	// only the single pattern of the alphabet: "*.ex.com" with '.' as separator
-	if pattern != "*.ex.com" {
-		panic("unexpected glob")
+// refGlob is the reference for the documented glob dialect restricted to the alphabet's constructs: literals, '?' (one
+// character that is not the separator), '*' (any run of characters without the separator) and '**' (any run).
+func refGlob(pattern, value string, sep byte) bool {
+	if pattern == "" {
+		return value == ""
 	}
 
-	if !strings.HasSuffix(host, ".ex.com") {
+	switch {
+	case strings.HasPrefix(pattern, "**"):
+		for i := 0; i <= len(value); i++ {
+			if refGlob(pattern[2:], value[i:], sep) {
+				return true
+			}
+		}
+
 		return false
+	case pattern[0] == '*':
+		for i := 0; i <= len(value); i++ {
+			if refGlob(pattern[1:], value[i:], sep) {
+				return true
+			}
+
+			if i < len(value) && value[i] == sep {
+				break
+			}
+		}
+
+		return false
+	case pattern[0] == '?':
+		return value != "" && value[0] != sep && refGlob(pattern[1:], value[1:], sep)
+	default:
+		return value != "" && value[0] == pattern[0] && refGlob(pattern[1:], value[1:], sep)
 	}
-
-	first := strings.TrimSuffix(host, ".ex.com")
-
-	return !strings.Contains(first, ".")
 }
+
+func globDot(pattern, host string) bool { return refGlob(pattern, host, '.') }
 
 func refHost(h rulecfg.HostMatcher, host string) bool {
 	switch h.Type {
@@ -152,12 +174,7 @@ func refParam(p rulecfg.ParameterMatcher, value string) bool {
 	case "exact":
 		return p.Value == value
 	case "glob":
-		// alphabet: "v*" with '/' separator
-		if p.Value != "v*" {
-			panic("unexpected glob")
-		}
-
-		return strings.HasPrefix(value, "v") && !strings.Contains(value, "/")
+		return refGlob(p.Value, value, '/')
 	default:
 		return regexp.MustCompile(p.Value).MatchString(value)
 	}
@@ -441,6 +458,19 @@ func diagnose(cs *Case, got, want bool) string {
 		}
 
 		return dir + "/conditions/" + strings.Join(f, "+")
+	case "combined":
+		pp := "no-path-params"
+		if len(cs.Routes[0].Params) > 0 {
+			pp = "path_params-on-" + wildcardKind(cs.Routes[0].Path, cs.Routes[0].Params[0].Name) + "-" + cs.Routes[0].Params[0].Type +
+				"(" + cs.Routes[0].Params[0].Value + ")"
+		}
+
+		var hs []string
+		for _, h := range cs.Hosts {
+			hs = append(hs, h.Type+"("+h.Value+")")
+		}
+
+		return dir + "/combined/hosts=" + strings.Join(hs, ",") + "/" + routeShape(cs) + "/" + pp
 	default:
 		pp := "no-path-params"
 		if len(cs.Routes[0].Params) > 0 {
@@ -464,10 +494,12 @@ func Check() *engine.Check {
 		ID:    "C03",
 		Level: "exploration",
 		Rule: "(conditions) full product of scheme {unset,http,https} x 6 method lists (unset, lists, ALL, ALL with exclusions) x every host " +
-			"list of length 0-2 over {exact h1, exact h2, glob *.ex.com, regex} x requests (3 methods x 2 schemes x 4 hosts); (routes) 7 route " +
+			"list of length 0-2 over {exact h1, exact h2, glob *.ex.com, regex, glob v*} x requests (3 methods x 2 schemes x 7 hosts); (routes) 7 route " +
 			"shapes (single, two singles, free, single+free, shared-prefix pair forcing descent-and-return, unnamed single, unnamed free) x " +
 			"path_params (none; exact/glob/regex on every named wildcard incl. the free one, matching and not) x 3 encoded-slash settings x request " +
-			"paths built from segments {v, v%20w, %5Bid%5D, a%2Fb, a%2fb, foo, bar}; executed through the real decision service (real request parsing, " +
+			"paths built from segments {v, v%20w, %5Bid%5D, a%2Fb, a%2fb, foo, bar, v.w, v%2Fw, a.ex.com}; (combined) 4 (thorough: 30) condition sets, " +
+			"among them host globs with the same text as path_params globs (separator '.' vs '/'), x all route shapes x path_params x settings x 4 " +
+			"request (method, scheme, host) triples x all paths; executed through the real decision service (real request parsing, " +
 			"rule factory, radix tree, matchers, rule execution, header finalizer echoing Request.URL.Captures); oracle: reference matcher + decoded-capture model.",
 		Assumptions: []string{
 			"a methods list containing only exclusions without ALL is not judged",
@@ -489,7 +521,11 @@ func Check() *engine.Check {
 var hostMenu = []rulecfg.HostMatcher{
 	{Type: "exact", Value: "h1.ex.com"}, {Type: "exact", Value: "h2.ex.com"}, {Type: "glob", Value: "*.ex.com"},
 	{Type: "regex", Value: `^h[12]\.ex\.com$`},
+	// the same expression text as one of the path_params globs: the separator differs ('.' for hosts, '/' for values)
+	{Type: "glob", Value: "v*"},
 }
+
+var reqHosts = []string{"h1.ex.com", "h2.ex.com", "a.ex.com", "other.org", "x.h1.ex.com", "v1", "v.ex.com"}
 
 func hostLists() [][]rulecfg.HostMatcher {
 	out := [][]rulecfg.HostMatcher{nil}
@@ -526,10 +562,11 @@ var shapes = []routeShapeDef{
 
 var paramMenu = []struct{ typ, val string }{
 	{"exact", "v"}, {"exact", "v w"}, {"glob", "v*"}, {"regex", `^\[id\]$`}, {"regex", "^a.*b$"}, {"regex", "^nomatch$"},
+	{"glob", "v?w"}, {"glob", "*.ex.com"},
 }
 
 func reqPaths() []string {
-	segs := []string{"v", "v%20w", "%5Bid%5D", "a%2Fb", "a%2fb", "foo", "bar"}
+	segs := []string{"v", "v%20w", "%5Bid%5D", "a%2Fb", "a%2fb", "foo", "bar", "v.w", "v%2Fw", "a.ex.com"}
 
 	var out []string
 
@@ -568,7 +605,7 @@ func run(c *engine.Ctx) {
 
 				for _, rm := range []string{"GET", "POST", "DELETE"} {
 					for _, rs := range []string{"http", "https"} {
-						for _, rh := range []string{"h1.ex.com", "h2.ex.com", "a.ex.com", "other.org", "x.h1.ex.com"} {
+						for _, rh := range reqHosts {
 							judge(c, f, &Case{Part: "conditions", Scheme: sch, Methods: ml, Hosts: hl, Routes: []RouteCfg{{Path: "/f/:x"}},
 								ReqMethod: rm, ReqScheme: rs, ReqHost: rh, ReqPath: "/f/v"})
 						}
@@ -620,6 +657,94 @@ func run(c *engine.Ctx) {
 
 				for _, p := range paths {
 					judge(c, f, &Case{Part: "routes", Routes: routes, Slashes: sl, ReqMethod: "GET", ReqScheme: "http", ReqHost: "h1.ex.com", ReqPath: p})
+				}
+			}
+		}
+	}
+
+	runCombined(c, f, &idx, paths)
+}
+
+type condDef struct {
+	scheme  string
+	methods []string
+	hosts   []rulecfg.HostMatcher
+}
+
+type reqCond struct{ method, scheme, host string }
+
+// combined: the conditions and the route shapes in one rule, so that the interplay of the radix tree lookup with the
+// rule's matcher (and state shared between the compiled expressions of hosts and path_params) is exercised.
+func runCombined(c *engine.Ctx, f *fixture, idx *int, paths []string) {
+	conds := []condDef{
+		{"", nil, []rulecfg.HostMatcher{{Type: "glob", Value: "v*"}}},
+		{"https", []string{"ALL", "!GET"}, []rulecfg.HostMatcher{{Type: "exact", Value: "h1.ex.com"}, {Type: "glob", Value: "*.ex.com"}}},
+		{"", []string{"GET", "POST"}, []rulecfg.HostMatcher{{Type: "glob", Value: "*.ex.com"}}},
+		{"http", nil, nil},
+	}
+
+	if c.Tier == "thorough" {
+		conds = nil
+
+		for _, sch := range []string{"", "https"} {
+			for _, ml := range [][]string{nil, {"GET", "POST"}, {"ALL", "!GET"}} {
+				for _, hl := range [][]rulecfg.HostMatcher{
+					nil, {{Type: "glob", Value: "v*"}}, {{Type: "glob", Value: "*.ex.com"}},
+					{{Type: "exact", Value: "h1.ex.com"}, {Type: "glob", Value: "*.ex.com"}},
+					{{Type: "regex", Value: `^h[12]\.ex\.com$`}, {Type: "glob", Value: "v*"}},
+				} {
+					conds = append(conds, condDef{sch, ml, hl})
+				}
+			}
+		}
+	}
+
+	reqs := []reqCond{{"GET", "http", "h1.ex.com"}, {"POST", "https", "v.ex.com"}, {"GET", "https", "v1"}, {"POST", "https", "a.ex.com"}}
+
+	for _, cd := range conds {
+		for _, sh := range shapes {
+			var paramSets [][]rulecfg.ParameterMatcher
+
+			paramSets = append(paramSets, nil)
+
+			for _, n := range sh.named {
+				for _, pm := range paramMenu {
+					paramSets = append(paramSets, []rulecfg.ParameterMatcher{{Name: n, Type: pm.typ, Value: pm.val}})
+				}
+			}
+
+			for _, ps := range paramSets {
+				for _, sl := range []string{"", "on", "no_decode"} {
+					*idx++
+
+					if !c.Mine(*idx) {
+						continue
+					}
+
+					if c.Expired() {
+						return
+					}
+
+					var routes []RouteCfg
+
+					for _, p := range sh.routes {
+						var pp []rulecfg.ParameterMatcher
+
+						for _, m := range ps {
+							if strings.Contains(p, ":"+m.Name) || strings.Contains(p, "*"+m.Name) {
+								pp = append(pp, m)
+							}
+						}
+
+						routes = append(routes, RouteCfg{Path: p, Params: pp})
+					}
+
+					for _, rq := range reqs {
+						for _, p := range paths {
+							judge(c, f, &Case{Part: "combined", Scheme: cd.scheme, Methods: cd.methods, Hosts: cd.hosts, Routes: routes,
+								Slashes: sl, ReqMethod: rq.method, ReqScheme: rq.scheme, ReqHost: rq.host, ReqPath: p})
+						}
+					}
 				}
 			}
 		}
